@@ -294,6 +294,9 @@ def jobs(tier, seed):
         "feature-cleanup": ([F([S(1)]), F([S(1)])], {"out_dom": {"*": [0, 1]}}),
         "wip": ([F([S(2, tags=["wip"]), S(1)], bg=1)], {"out_dom": {"*": [0, 3]}, "undef": False}),
         "converr": ([F([S(2), S(1)])], {"out_dom": {"*": [0, 1]}, "converr": True, "undef": False}),
+        # step parameters converted to values of other Python types (numbers that JSON has no literal for, dates, objects)
+        "typed-args": ([F([S(2), S(1)])], {"out_dom": {"*": [0, 1]}, "undef": False,
+                                           "typed_values": ["str", "int", "float", "Decimal", "Fraction", "complex", "date", "object", "list"]}),
         "hook-skip": ([F([S(1), S(2), R([S(1)], bg=1)])], {"out_dom": {"*": [0, 1]}, "undef": False}),
     }
     if tier == "thorough":
